@@ -116,13 +116,23 @@ def gen_case(rng):
     from ..cases import nslots
     nx = nslots(c["states"])
     c["states"] = [{"rows": 1, "cols": 1} for _ in range(nx)]
+    # sometimes an unrelated VECTOR state is declared in front of the scalar ones (it takes slots 0..1 and stays out of
+    # the constraint: the certificate must still pair every scalar state with its own step polynomial)
+    off = 0
+    if nx > 0 and rng.random() < 0.3:
+        off = 2
+        c["states"] = [{"rows": 2, "cols": 1}] + c["states"]
+        syms0 = gen.sym_list(dict(c, states=c["states"]), ["x", "u"])
+        c["ode"] = [gen.rand_poly(rng, syms0, 2) for _ in range(2)] + c["ode"]
+        c["_decoy_vector_state"] = True
+    idx = list(range(off, off + nx))
     # the bound is the last global parameter
     c["params"] = [{"rows": 1, "cols": 1, "grid": ""}]
     c["param_values"] = {"p": [jq(0)], "pc": [[] for _ in range(c["method"]["N"])], "pp": [[] for _ in range(c["method"]["N"] + 1)]}
-    xs = [["s", "x", i] for i in range(nx)]
+    xs = [["s", "x", i] for i in range(off + nx)]
     kind = rng.choice(["affine", "affine", "quadratic", "product", "twosided", "infder", "cubic", "dermix", "poly"])
     if kind == "affine" or nx == 0:
-        terms = [(dyadic_nz(rng, -2, 2, 1), i) for i in range(nx) if rng.random() < 0.8] or [(Fraction(1), 0)]
+        terms = [(dyadic_nz(rng, -2, 2, 1), i) for i in idx if rng.random() < 0.8] or [(Fraction(1), off)]
         const = dyadic(rng, -1, 1, 1)
         e = gen.C(const)
         for a, i in terms:
@@ -130,27 +140,27 @@ def gen_case(rng):
         c["inf"] = {"kind": "affine", "terms": [[jq(a), i] for a, i in terms], "const": jq(const), "expr": e}
     elif kind == "twosided":
         # both sides depend on the states:  e1 <= e2 + bound  (rows certify e1 - e2 <= bound)
-        i, j = rng.randrange(nx), rng.randrange(nx)
+        i, j = rng.choice(idx), rng.choice(idx)
         e1 = ["+", ["*", gen.C(dyadic_nz(rng, -2, 2, 1)), xs[i]], gen.C(dyadic(rng, -1, 1, 1))]
         e2 = ["*", xs[j], xs[j]] if rng.random() < 0.5 else ["*", gen.C(dyadic_nz(rng, -2, 2, 1)), xs[j]]
         c["inf"] = {"kind": "twosided", "lhs": e1, "rhs": e2, "expr": ["-", e1, e2],
                     "deg": 8 if e2[0] == "*" and e2[1] == xs[j] else 4}
     elif kind == "infder":
         # the derivative of a state polynomial in physical time
-        i = rng.randrange(nx)
+        i = rng.choice(idx)
         c["inf"] = {"kind": "infder", "state": i, "expr": xs[i], "model_expr": ["der", i]}
     elif kind == "quadratic":
-        i = rng.randrange(nx)
-        e = ["+", ["*", xs[i], xs[i]], ["*", gen.C(dyadic(rng, -1, 1, 1)), xs[rng.randrange(nx)]]]
+        i = rng.choice(idx)
+        e = ["+", ["*", xs[i], xs[i]], ["*", gen.C(dyadic(rng, -1, 1, 1)), xs[rng.choice(idx)]]]
         c["inf"] = {"kind": "quadratic", "expr": e}
     elif kind == "cubic":
-        i, j, k = rng.randrange(nx), rng.randrange(nx), rng.randrange(nx)
+        i, j, k = rng.choice(idx), rng.choice(idx), rng.choice(idx)
         e = ["+", ["*", ["*", xs[i], xs[j]], ["-", xs[k], gen.C(dyadic(rng, -1, 1, 1))]], ["*", gen.C(dyadic_nz(rng, -1, 1, 1)), xs[i]]]
         c["inf"] = {"kind": "cubic", "expr": e, "deg": 12}
     elif kind == "dermix":
         # a state, its time derivative and a product with a derivative in one expression (no refined-sample oracle:
         # inf_der symbols cannot be sampled; rows against the model only)
-        i, j = rng.randrange(nx), rng.randrange(nx)
+        i, j = rng.choice(idx), rng.choice(idx)
         e = ["+", ["*", gen.C(dyadic_nz(rng, -2, 2, 1)), ["der", i]], xs[j]]
         if rng.random() < 0.5:
             e = ["-", e, ["*", ["der", j], xs[i]]]
@@ -160,7 +170,7 @@ def gen_case(rng):
         def tree(d):
             r = rng.random()
             if d == 0 or r < 0.25:
-                return xs[rng.randrange(nx)] if rng.random() < 0.75 else gen.C(dyadic_nz(rng, -2, 2, 1))
+                return xs[rng.choice(idx)] if rng.random() < 0.75 else gen.C(dyadic_nz(rng, -2, 2, 1))
             if r < 0.5:
                 return ["+", tree(d - 1), tree(d - 1)]
             if r < 0.7:
@@ -173,11 +183,11 @@ def gen_case(rng):
         e = tree(2)
         # cancellations (x - x, -x + x, ...) are simplified away by CasADi when the expression is built: rockit would see
         # another expression (lower degree, possibly a constant) than the one the model is given
-        while not CS_mentions_state(e) or true_degree(e, nx) != pdegree(e) or pdegree(e) == 0:
+        while not CS_mentions_state(e) or true_degree(e, off + nx) != pdegree(e) or pdegree(e) == 0:
             e = tree(2)
         c["inf"] = {"kind": "poly", "expr": e, "deg": 4 * pdegree(e)}
     else:
-        i, j = rng.randrange(nx), rng.randrange(nx)
+        i, j = rng.choice(idx), rng.choice(idx)
         e = ["-", ["*", xs[i], xs[j]], xs[i]]
         c["inf"] = {"kind": "product", "expr": e}
     # lower bounds (expr >= bound) as well as upper bounds
